@@ -63,9 +63,9 @@ def region_of(meta, line):
     return None
 
 
-def run_verus(path, meta, workdir, rlimit=None, threads=8, timeout=900, extra=None):
+def run_verus(path, meta, workdir, rlimit=None, threads=8, timeout=900, extra=None, multiple_errors=4):
     cmd = ['verus', path, '--output-json', '--time-expanded', '--error-format=json',
-           '--multiple-errors', '4', '--num-threads', str(threads), '--triggers-mode', 'silent']
+           '--multiple-errors', str(multiple_errors), '--num-threads', str(threads), '--triggers-mode', 'silent']
     if rlimit:
         cmd += ['--rlimit', str(rlimit)]
     if extra:
